@@ -28,5 +28,12 @@ CHECKS["C20"] = dict(
          "the NumPy index expression on the reference matrix for all payload values",
     note=_TB + "; two index arrays are compared with the documented outer (np.ix_) semantics of Sliced",
     technique="symbolic execution of the Python source + z3 validity queries on term-DAG equalities; counterexamples replayed on float NumPy")
-for _p in ["C04","C05","C06","C07","C08","C09","C10","C11","C12","C13","C14","C15","C16","C17","C18","C19"]:
+CHECKS["C08"] = dict(
+    text="diag(A, k, alg) for every offset -n < k < n and trace(A, alg) with Exact(), Auto() and the omitted default executed on every leaf kind "
+         "and 26 composite trees with symbolic payloads (structural rules and the real blocked probing exact_diag / get_I_chunk_like, incl. "
+         "rule-less operators of size 100..320 around the block size); z3 proves equality with the reference diagonal for all payload values; "
+         "a refusal is accepted only from a structural rule on an off-diagonal",
+    note=_TB + "; the stochastic estimator is not executed here: its selection by the automatic default is itself reported and replayed",
+    technique="symbolic execution of the Python source + z3 validity queries on term-DAG equalities; counterexamples replayed on float NumPy")
+for _p in ["C04","C05","C06","C07","C09","C10","C11","C12","C13","C14","C15","C16","C17","C18","C19"]:
     NA[_p] = "check under construction in this session (not yet registered); see DESIGN.md section 5 for the plan"
